@@ -157,6 +157,43 @@ CHECKS = {
         technique="TLA+ exact algebra with TLC-evaluated theorems on degree-sufficient grids; recorded integer events "
                   "judged by TLC (trace validation of pure functions)",
         ref="6 (C12), 2.2"),
+    "C13": dict(
+        text="ExactLie.tla: skew/vex/skewa/vexa for so(2), so(3), se(2), se(3), skew(a)b = a x b, the adjoint as an integer "
+             "matrix over a common denominator, ad(S), the velocity Jacobian, delta2tr / tr2delta. TLC evaluates the "
+             "theorems (bilinear ones on basis vectors; Ad(T1T2)=Ad(T1)Ad(T2), Ad(T^-1)Ad(T)=I, Ad(T)S = vee(T[S]T^-1) on "
+             "the cube-group and rational lattices). The base functions and SE3.Ad/jacob, Twist3.ad are executed on integer "
+             "vectors (scales 1e-6..1e6) and lattice/rational motions; results are logged as integer events and judged by "
+             "TLC (LieTrace.tla). Laws involving exp of a general twist, Twist3.Ad, the first-order agreement of tr2delta "
+             "with the logarithm (|d| = 1e-9..1e-2, bound 2|d|^2) and real-valued motions with |t| up to 1e3 are "
+             "evaluated on sampled valuations.",
+        note="exp(ad S) uses a 12-line power-series expm in the harness (trusted). Exact oracle on the integer / rational "
+             "sub-domain only.",
+        technique="TLA+ exact Lie-algebra model with TLC-evaluated theorems; integer events judged by TLC; laws on "
+                  "sampled valuations",
+        ref="6 (C13)"),
+    "C19": dict(
+        text="ExactLine.tla decides incidence, parallelism, intersection and equality of Pluecker lines division-free over "
+             "the integers and gives principal point, foot, distances, plane intersection as exact rationals; six "
+             "geometric theorems are TLC-checked on integer boxes. LineCases.tla constructs ~2800 cases (lines from two "
+             "points / point+direction / two planes with queries, lines transformed by lattice and rational motions, line "
+             "pairs CONSTRUCTED in general / parallel / intersecting / coincident position with PairSanity as invariant, "
+             "plane hits, plane membership); each is executed at data scales 1e-3, 1, 1e3 and compared to 1e-9 relative "
+             "to the data magnitude. Incidence is measured as a residual on the object's own (v, w).",
+        note="Boolean predicates (contains, ==, !=, |, ^, isparallel) use absolute thresholds of a few eps in the library: "
+             "they are judged only on configurations whose floating-point evaluation is exact or whose margin is large, "
+             "and merely counted elsewhere. The line-line intersection point (intersects()) is not named by C19.",
+        technique="TLA+ exact line geometry + constructed-case machine enumerated by TLC; per-case replay at three scales",
+        ref="6 (C19)"),
+    "C20": dict(
+        text="ExactSpatial.tla: crm/crf as integer matrices, the duality (v x* f).m = -f.(v x m) proved on basis triples, "
+             "v x v = 0, symmetry and parallel-axis form of the spatial inertia, momentum of a translating body, Ad / Ad' "
+             "transport (from ExactLie). The four spatial-vector classes, SpatialInertia, SE3* and Twist3* are executed on "
+             "integer 6-vectors (basis, random, scales 1e-6/1/1e6), integer (m, c, I) and lattice/rational motions; ~27k "
+             "integer events are judged by TLC. Typed arithmetic is enumerated over every ordered pair of classes and "
+             "lengths 1..3 (same class in/out, mixed classes and unequal lengths must raise, documented product classes).",
+        note="Each implementation map is assumed polynomial in its arguments (checked on extra points).",
+        technique="TLA+ exact spatial algebra; integer events judged by TLC; exhaustive typed-operator enumeration",
+        ref="6 (C20)"),
 }
 
 ENGINE = {"name": "tlc-replay", "path": "/verif/check",
